@@ -732,6 +732,7 @@ func minimise(t *testing.T, p *Plan, v Violation) (*Plan, minimStat, Violation) 
 	if p.Engine == "convert" {
 		budget = 40 // every rerun enumerates the crash points again, and there are no operations to drop
 	}
+	budget = envInt("VERIF_MINBUDGET", budget) // (evaluation of seeded changes: the replay need not be small)
 	try := func(c *Plan) bool {
 		if st.Reruns >= budget {
 			return false
